@@ -23,6 +23,38 @@ CHECKS = {
         technique="Lean 4 proof over generated model + exact (Fraction vs Q) correspondence",
         design="6/C14",
     ),
+    "C04": dict(
+        text=("Theorem mean_analyze_eq_textbook over the regenerated model: for all samples of size >= 2, all 12 "
+              "option cells and every confidence level in (0,1), every field of Mean.analyze on the aggregates of "
+              "the raw observations equals the Student/Welch/Z test written from the raw observations (incl. the "
+              "log-scale delta interval); derived from C06's main theorem with the covariate absent. Tie: translator "
+              "+ exact correspondence; search: real code vs Lean spec at Q; float end-to-end vs scipy.stats.ttest_ind."),
+        note=NOTE_COMMON + "Hypothesis on the primitives: isf q = -ppf q on (0,1), exp(-x) = 1/exp x (proved for the "
+             "rational stand-ins, sampled on scipy). That scipy's t/norm are the Student/normal laws is trusted.",
+        technique="Lean 4 proof over generated model + exact correspondence + scipy float cross-check",
+        design="6/C04",
+    ),
+    "C05": dict(
+        text=("Theorems ratio_analyze_eq_textbook (RatioOfMeans on aggregates = two-sample test of the per-variant "
+              "linearised observations, all data with non-zero denominator means, all options), mean_eq_ratio_none "
+              "(generated constructor map), ratio_denom_none_eq_mean, ratio_denom_ones_eq_mean. Same tie/search as C04."),
+        note=NOTE_COMMON + "Same hypotheses on the primitives as C04. Column names assumed pairwise distinct where a "
+             "role is reused (see DESIGN 7/F5).",
+        technique="Lean 4 proof over generated model + exact correspondence",
+        design="6/C05",
+    ),
+    "C06": dict(
+        text=("Theorem cuped_analyze_eq_textbook: for every data set, metric (Mean / RatioOfMeans, any covariate "
+              "roles) and option cell, analysis from aggregates = textbook test of Y - theta*(X - mean_pooled X) "
+              "with theta = cov/var on control+treatment pooled (linearisations at pooled means); corollaries: "
+              "affine invariance (Mean), covariate numerator/denominator rescale invariance (all metrics), "
+              "zero-variance no-op, pooled-mean preservation. Tie: translator + exact correspondence; search on the "
+              "real code incl. the corollaries as exact metamorphic relations."),
+        note=NOTE_COMMON + "Same hypotheses on the primitives as C04; data with >= 2 rows per variant and non-zero "
+             "denominator means (degenerate data is C18).",
+        technique="Lean 4 proof over generated model + exact correspondence",
+        design="6/C06",
+    ),
 }
 
 PENDING_REASON = "check not implemented yet in this round (see DESIGN.md section 6 for the planned model and theorems)"
